@@ -4,6 +4,14 @@ import Driver.Merkle
 import Driver.Hs
 import Driver.Sync
 import Driver.Disk
+import Driver.Bf
+import Driver.Pool
+import Driver.Supply
+import Driver.Wallet
+import Driver.Txv
+import Driver.Sync2
+import Driver.Cv
+import Driver.Atr
 /-
   Line-protocol driver of the executable Lean models. `driver <suite>` reads one request per line on stdin
   and answers one line per request on stdout. One sub-driver per model family (Driver/<Suite>.lean).
@@ -16,4 +24,13 @@ def main (args : List String) : IO Unit :=
   | ["hs"] => Drv.Hs.run
   | ["sync"] => Drv.Sync.run
   | ["disk"] => Drv.Disk.run
+  | ["bf"] => Drv.Bf.run
+  | ["pool"] => Drv.Pool.run
+  | ["supply"] => Drv.Supply.run
+  | ["wallet"] => Drv.Wallet.run
+  | ["txv"] => Drv.Txv.run
+  | ["forkid"] => Drv.Sync2.run
+  | ["produce"] => Drv.Cv.run
+  | ["cv"] => Drv.Cv.run
+  | ["atr"] => Drv.Atr.run
   | _ => do IO.eprintln "usage: driver <suite>"; IO.Process.exit 2
